@@ -23,6 +23,8 @@ inductive PyErr where
   | attributeError
   | zeroDivision
   | overflowError
+  | runtimeError
+  | outsideModel      -- not a Python class: the input leaves the modelled fragment (reported, never compared)
   deriving DecidableEq, Repr, Inhabited
 
 def PyErr.name : PyErr → String
@@ -40,6 +42,8 @@ def PyErr.name : PyErr → String
   | .attributeError => "attributeError"
   | .zeroDivision => "zeroDivision"
   | .overflowError => "overflowError"
+  | .runtimeError => "runtimeError"
+  | .outsideModel => "outsideModel"
 
 abbrev Py (α : Type) := Except PyErr α
 
